@@ -161,7 +161,7 @@ def corpus(pvl):
 
 def shard(i, n, tier, seed, rec, hb):
     pvl = common.import_pvl()
-    total = 2400 if tier == "quick" else 40000
+    total = 2400 if tier == "quick" else 250000
     for j in range(i, total, n):
         hb.beat()
         key = f"C07-{seed}-{j}"
